@@ -393,6 +393,11 @@ func (s *dasSys) Enabled() []string {
 		if s.w.storeHead < s.cfg.MaxHeight {
 			ev = append(ev, "grow")
 		}
+		// the header store prunes its oldest header while the DASer is down (Start clamps the
+		// checkpoint, its failed heights and its workers to the new tail)
+		if s.w.tail < s.w.storeHead && s.w.tail < 3 {
+			ev = append(ev, "tailadv")
+		}
 	}
 	return ev
 }
@@ -480,6 +485,8 @@ func (s *dasSys) Apply(ev string) error {
 		s.start()
 	case "grow":
 		s.w.storeHead++
+	case "tailadv":
+		s.w.tail++
 	default:
 		return fmt.Errorf("harness: unknown event %q", ev)
 	}
@@ -776,7 +783,7 @@ func (s *dasSys) Check() error { return s.err }
 func (s *dasSys) Fingerprint() string {
 	var b strings.Builder
 	w := s.w
-	fmt.Fprintf(&b, "ph=%d crashed=%v storeHead=%d cp=%s bgPrev=%d|", s.ph, s.crashed, w.storeHead, w.lastCP, w.bgPrev)
+	fmt.Fprintf(&b, "ph=%d crashed=%v storeHead=%d tail=%d cp=%s bgPrev=%d|", s.ph, s.crashed, w.storeHead, w.tail, w.lastCP, w.bgPrev)
 	b.WriteString("sampled=")
 	for _, h := range vx.SortedKeys(w.sampled) {
 		fmt.Fprintf(&b, "%d,", h)
